@@ -37,4 +37,11 @@ void transpose_dm(const dmat *A, dmat *At);
 /* oracles on a finished call */
 int  o_scaling(const xs *s, const dmat *A_in, const dmat *B_in, int trans, int equil, vres *r);
 int  o_solution(const xs *s, int trans, const dmat *Bafter, vres *r, double *ratio, int *nr_conj_quirk);
+
+/* incomplete LU: options from the digits of c->k (drop(7) tol(3) fill(3) norm(3) milu(4)), and the judge of one finished xgsisx call */
+extern const int xs_ilu_drops[7];
+void xs_ilu_options(const vcase *c, int rowperm, superlu_options_t *opt);
+int  ilu_nodrop(int k);                                       /* dropping disabled and plain ILU: complete-LU guarantees apply when no pivot was replaced */
+typedef struct { int multi, urep, exact, quirk; double ratio_solve, ratio_id; } ilu_stats;
+int  o_ilu(const xs *s, int trans, int equil, const dmat *A_in, const dmat *B_in, const dmat *B_after, int nodrop, int cond, vres *r, ilu_stats *st);
 #endif
